@@ -8,6 +8,7 @@ encoders emit is accepted, with the same meaning, by the independent `Spec` deco
 import WtVerif.Lemmas.Worker
 import WtVerif.Lemmas.Ids
 import WtVerif.Spec.H3
+import WtVerif.Lemmas.Wire
 
 namespace Props.C16
 open Varint
@@ -143,6 +144,22 @@ theorem field_section_prefix_is_zero (fs : List Qpack.Field) :
     ∃ lines, Qpack.encode fs = [0x00, 0x00] ++ lines := by
   refine ⟨fs.flatMap Qpack.encodeField, ?_⟩
   simp [Qpack.encode, Qpack.encodeInt]
+
+/-- every Huffman string the endpoint emits is the code words of its bytes followed by fewer
+than 8 one-bits — a prefix of EOS, the only padding RFC 7541 §5.2 allows -/
+theorem huffman_padding_is_eos_prefix (s : Bytes) :
+    ∃ k, k < 8 ∧ (Huffman.encode s).flatMap Huffman.byteBits
+      = s.flatMap (fun b => Huffman.codeBits b.toNat) ++ List.replicate k true := by
+  refine ⟨Huffman.padLen (s.flatMap (fun b => Huffman.codeBits b.toNat)).length, by unfold Huffman.padLen; omega, ?_⟩
+  unfold Huffman.encode
+  exact Huffman.packBits_bits _
+
+/-- every header section the endpoint emits (names and values are Rust strings) is decodable,
+and decodes to the map it was generated from -/
+theorem emitted_header_section_decodes (h : Headers) (hnd : (h.map (·.1)).Nodup) (ht : Headers.Texts h) :
+    ∃ h', Headers.withPayload (Headers.encode h) = .ok h' ∧ ∀ k, Headers.get h' k = Headers.get h k := by
+  obtain ⟨h', hw, _, hg⟩ := Headers.wire_roundtrip h hnd ht
+  exact ⟨h', hw, hg⟩
 
 /-! ### non-vacuity -/
 example : Spec.varint [0x40, 0x54, 0x00, 0x01] = some (0x54, [0x00, 0x01]) := by decide
